@@ -107,7 +107,9 @@ def coop_wait(obj, meth, *a, **k):
         if ready:
             if isinstance(val, BaseException): raise val
             return val
-        yield BLOCKED
+        # "runnable": the call is in progress but the thread is not waiting for anybody (e.g. socket.send copying with the GIL
+        # released): an ordinary preemption point, the thread goes on unless the schedule switches here
+        yield (0 if val == "runnable" else BLOCKED)
 
 def coop(fn, callees=(), waiters=(), registry=None, shared=None):
     src = textwrap.dedent(inspect.getsource(fn))
